@@ -542,3 +542,195 @@ def workload(tier, seed):
                 yield "matching", {"cls": cls, "n": 7, "masks": ch, "as_nx": False}
         for i in range(2 if quick else 16):
             yield "sampled", {"cls": cls, "rseed": seed * 100 + i}
+            yield "sampled2", {"cls": cls, "rseed": seed * 100 + i}
+
+
+# ------------------------------------------------------------------ beyond the cap: more families at realistic sizes
+def sampled_compare(ctx, fam, desc, F, assignments, predicate, key):
+    from ..refmodels.names import eval_formula
+    nt = nf = 0
+    for t in assignments:
+        exp = predicate(t)
+        got = eval_formula(F, t)
+        ctx.count("sampled_assignments")
+        nt, nf = nt + bool(exp), nf + (not exp)
+        if got != exp:
+            ctx.violation("%s:sampled:%s" % (fam, "satisfied-by-non-object" if got else "object-not-a-model"),
+                          "%s: an assignment that %s the documented condition %s the formula; true variables %s"
+                          % (desc, "meets" if exp else "violates", "satisfies" if got else "falsifies",
+                             sorted(S.name_of(F, v) for v in t)[:30]))
+            break
+    ctx.count("sampled_cases")
+    ctx.count("sampled_true_references", nt)
+    ctx.count("sampled_false_references", nf)
+    ctx.judged(key, sample={"family": fam, "case": desc, "variables": F.number_of_variables(), "mode": "sampled",
+                            "assignments_true": nt, "assignments_false": nf})
+
+
+def perturb(r, base, universe, howmany):
+    out = [set(base)]
+    universe = list(universe)
+    for _ in range(howmany):
+        t = set(base)
+        for v in r.sample(universe, min(len(universe), r.choice([1, 1, 2, 3]))):
+            t ^= {v}
+        out.append(t)
+    return out
+
+
+def case_sampled2(ctx, cls, rseed):
+    from cnfgen.graphs import BipartiteGraph
+    K = S.formula_classes()[cls]
+    g = gens()
+    r = ctx.rng("c01sampled2", cls, rseed)
+    # ---- graph pigeonhole on a bipartite graph with a planted left-saturating matching
+    for (L, R) in ((8, 10), (12, 12), (15, 11)):
+        E = set()
+        if L <= R:
+            holes = r.sample(range(1, R + 1), L)
+            E |= {(i + 1, holes[i]) for i in range(L)}
+        for _ in range(3 * L):
+            E.add((r.randint(1, L), r.randint(1, R)))
+        E = sorted(E)
+        B = BipartiteGraph(L, R)
+        for e in E:
+            B.add_edge(*e)
+        for functional in (False, True):
+            for onto in (False, True):
+                desc = "GraphPigeonholePrinciple(random B(%d,%d) %d edges,functional=%s,onto=%s)[%s]" % (L, R, len(E), functional, onto, cls)
+                F, exc = S.build(ctx, "gphp", desc, g.GraphPigeonholePrinciple, B, functional=functional, onto=onto, formula_class=K)
+                if F is None:
+                    raised(ctx, "gphp", desc, exc)
+                    continue
+                at = S.decode(ctx, "gphp", desc, F)
+                if at is None:
+                    continue
+                p = at.get("p_{#,#}", {})
+                if set(p) != set(E):
+                    ctx.violation("gphp:atoms", "%s: variables do not name the edges" % desc)
+                    continue
+
+                def pred(t, p=p, E=E, L=L, R=R, functional=functional, onto=onto):
+                    rel = [e for e in E if p[e] in t]
+                    rows = [0] * (L + 1)
+                    cols = [0] * (R + 1)
+                    for (u, v) in rel:
+                        rows[u] += 1
+                        cols[v] += 1
+                    if any(rows[u] == 0 for u in range(1, L + 1)) or any(cols[v] > 1 for v in range(1, R + 1)):
+                        return False
+                    if functional and any(rows[u] > 1 for u in range(1, L + 1)):
+                        return False
+                    if onto and any(cols[v] == 0 for v in range(1, R + 1)):
+                        return False
+                    return True
+                base = {p[(i + 1, holes[i])] for i in range(L)} if L <= R else set()
+                sampled_compare(ctx, "gphp", desc, F, perturb(r, base, p.values(), 30), pred,
+                                ("gphp-large", L, R, tuple(E), functional, onto, cls))
+    # ---- binary pigeonhole with 4-5 bits
+    for (m, n) in ((9, 12), (7, 20), (14, 13)):
+        desc = "BinaryPigeonholePrinciple(%d,%d)[%s]" % (m, n, cls)
+        F, exc = S.build(ctx, "bphp", desc, g.BinaryPigeonholePrinciple, m, n, formula_class=K)
+        if F is None:
+            raised(ctx, "bphp", desc, exc)
+            continue
+        at = S.decode(ctx, "bphp", desc, F)
+        if at is None:
+            continue
+        v = at.get("v(#,#)", {})
+        bits = (n - 1).bit_length()
+        if len(v) != m * bits:
+            ctx.violation("bphp:numvar", "%s has %d variables" % (desc, len(v)))
+            continue
+
+        def predb(t, v=v, m=m, n=n, bits=bits):
+            vals = [sum((1 << b) for b in range(bits) if v[(i, b)] in t) for i in range(1, m + 1)]
+            return all(x < n for x in vals) and len(set(vals)) == m
+        pool = []
+        for _ in range(30):
+            if m <= n:
+                img = r.sample(range(n), m)
+            else:
+                img = [r.randrange(n) for _ in range(m)]
+            t = {v[(i + 1, b)] for i in range(m) for b in range(bits) if (img[i] >> b) & 1}
+            pool.append(t)
+            i, j = r.sample(range(m), 2)
+            img2 = img[:]
+            img2[j] = img2[i]                           # a collision
+            pool.append({v[(a + 1, b)] for a in range(m) for b in range(bits) if (img2[a] >> b) & 1})
+            img3 = img[:]
+            img3[i] = r.randrange(n, 1 << bits) if n < (1 << bits) else img3[i]     # a code outside the range
+            pool.append({v[(a + 1, b)] for a in range(m) for b in range(bits) if (img3[a] >> b) & 1})
+        sampled_compare(ctx, "bphp", desc, F, pool, predb, ("bphp-large", m, n, cls, rseed))
+    # ---- counting principle: random partitions into blocks
+    for (M, pz) in ((12, 3), (10, 2), (11, 3), (12, 4)):
+        desc = "CountingPrinciple(%d,%d)[%s]" % (M, pz, cls)
+        F, exc = S.build(ctx, "count", desc, g.CountingPrinciple, M, pz, formula_class=K)
+        if F is None:
+            raised(ctx, "count", desc, exc)
+            continue
+        at = S.decode(ctx, "count", desc, F)
+        if at is None:
+            continue
+        x = at.get("p_{" + ",".join("#" * pz) + "}", {})
+
+        def predc(t, x=x, M=M):
+            cover = [0] * (M + 1)
+            for blk, var in x.items():
+                if var in t:
+                    for e in blk:
+                        cover[e] += 1
+            return all(c == 1 for c in cover[1:])
+        pool = []
+        for _ in range(20):
+            els = list(range(1, M + 1))
+            r.shuffle(els)
+            blocks = [tuple(sorted(els[i:i + pz])) for i in range(0, M - M % pz, pz)]
+            base = {x[b] for b in blocks}
+            pool += perturb(r, base, x.values(), 3)
+        sampled_compare(ctx, "count", desc, F, pool, predc, ("count-large", M, pz, cls, rseed))
+    # ---- subset cardinality on larger graphs: random edge labellings judged by the inequalities / equalities
+    for (L, R, d) in ((7, 7, 3), (10, 8, 4)):
+        E = sorted({(u, r.randint(1, R)) for u in range(1, L + 1) for _ in range(d)})
+        B = BipartiteGraph(L, R)
+        for e in E:
+            B.add_edge(*e)
+        for eq in (False, True):
+            desc = "SubsetCardinalityFormula(random B(%d,%d) %d edges,equalities=%s)[%s]" % (L, R, len(E), eq, cls)
+            F, exc = S.build(ctx, "subsetcard", desc, g.SubsetCardinalityFormula, B, equalities=eq, formula_class=K)
+            if F is None:
+                raised(ctx, "subsetcard", desc, exc)
+                continue
+            at = S.decode(ctx, "subsetcard", desc, F)
+            if at is None:
+                continue
+            x = at.get("x_{#,#}", {})
+            if set(x) != set(E):
+                ctx.violation("subsetcard:atoms", "%s: variables do not name the edges" % desc)
+                continue
+
+            def preds(t, x=x, E=E, L=L, R=R, eq=eq):
+                for u in range(1, L + 1):
+                    inc = [e for e in E if e[0] == u]
+                    s_ = sum(1 for e in inc if x[e] in t)
+                    if (s_ != (len(inc) + 1) // 2) if eq else (2 * s_ < len(inc)):
+                        return False
+                for v in range(1, R + 1):
+                    inc = [e for e in E if e[1] == v]
+                    s_ = sum(1 for e in inc if x[e] in t)
+                    if (s_ != len(inc) // 2) if eq else (2 * s_ > len(inc)):
+                        return False
+                return True
+            pool = []
+            for _ in range(60):
+                # greedy: give every left vertex the ceiling of half of its edges, preferring lightly loaded right vertices
+                load = {v: 0 for v in range(1, R + 1)}
+                t = set()
+                for u in r.sample(range(1, L + 1), L):
+                    inc = [e for e in E if e[0] == u]
+                    inc.sort(key=lambda e: (load[e[1]], r.random()))
+                    for e in inc[:(len(inc) + 1) // 2]:
+                        t.add(x[e])
+                        load[e[1]] += 1
+                pool += perturb(r, t, x.values(), 2)
+            sampled_compare(ctx, "subsetcard", desc, F, pool, preds, ("subsetcard-large", L, R, tuple(E), eq, cls))
